@@ -42,7 +42,7 @@ func (d *Decoder) Init() error {
 
 // reset clears the decoder state.
 func (d *Decoder) reset() {
-	d.buffer = d.buffer[:0]
+	d.buffer = nil // do not reuse buffer, it might have been returned to the caller
 	d.expectedSize = 0
 	d.currentTimestamp = 0
 	d.assembling = false
@@ -119,7 +119,7 @@ func (d *Decoder) Decode(pkt *rtp.Packet) ([]byte, error) {
 		// This is the start of a new KLV unit
 		d.currentTimestamp = timestamp
 		d.assembling = true
-		d.buffer = append(d.buffer[:0], payload...)
+		d.buffer = append([]byte(nil), payload...)
 
 		// Try to determine the expected size if we have enough data
 		if len(payload) >= 17 { // 16 bytes for Universal Label Key + at least 1 byte for length
